@@ -14,11 +14,11 @@ INVARIANTS = ["InputsWF", "DisjointKeepsAll", "DisjointAccepted", "Refusals", "P
 # option codes: channels 100*name + 10*content variant + observation variant; measurements 100*name + 10*poi + config variant
 TIERS = {
     # 31 752 pairs x 9 combines; 25 deep pairs x all sequences of <= 2 operations
-    "quick": dict(Chans={1, 2}, ChOpts={111, 121, 131, 112, 211, 221}, MeasNames={1, 2}, MeasOpts={110, 111, 112, 121, 211},
-                  VersR={1, 2}, DeepChOpts={111, 131, 211}, DeepMeasOpts={111}, MaxDepth=2, MaxSel=1, SwapRenames=True, EmitMod=30),
+    "quick": dict(Chans={1, 2}, ChOpts={111, 121, 131, 141, 112, 211, 221}, MeasNames={1, 2}, MeasOpts={110, 111, 112, 121, 211},
+                  VersR={1, 2}, DeepChOpts={111, 131, 141, 211}, DeepMeasOpts={111}, MaxDepth=2, MaxSel=1, SwapRenames=True, EmitMod=30),
     # 468 512 pairs x 9 combines; 9 deep pairs x all sequences of <= 3 operations with selections of <= 2 names
-    "thorough": dict(Chans={1, 2, 3}, ChOpts={111, 121, 131, 112, 211, 221, 311, 321}, MeasNames={1, 2},
-                     MeasOpts={110, 111, 112, 113, 121, 211}, VersR={1, 2}, DeepChOpts={111, 211}, DeepMeasOpts={111},
+    "thorough": dict(Chans={1, 2, 3}, ChOpts={111, 121, 131, 141, 112, 211, 221, 311, 321}, MeasNames={1, 2},
+                     MeasOpts={110, 111, 112, 113, 121, 211}, VersR={1, 2}, DeepChOpts={111, 141, 211}, DeepMeasOpts={111},
                      MaxDepth=3, MaxSel=2, SwapRenames=True, EmitMod=100),
 }
 
@@ -60,7 +60,8 @@ def run(prop, tier):
     missing = [k for k in ("combine-disjoint", "prune", "rename", "sorted") if not like.get(k)]
     if missing:
         raise Machinery(f"vacuous replay: no likelihood clause evaluated for {missing}")
-    if sum(skipped.values()) > 0.5 * max(1, sum(like.values())):
+    # workspaces with a two-typed parameter name get the structural clauses only, by design: not part of the vacuity ratio
+    if sum(n for k, n in skipped.items() if "two modifier types" not in k) > 0.5 * max(1, sum(like.values())):
         raise Machinery(f"vacuous replay: too many likelihood clauses skipped: {skipped}")
     for ln in lines[:3]:
         cse = json.loads(ln)
